@@ -57,12 +57,12 @@ pub fn enum_days(tier: Tier, shard: usize, f: &mut dyn FnMut(i64, usize, i128, b
         if tier == Tier::Thorough {
             for s in 0..9 {
                 for (i, tod) in tods.iter().enumerate() {
-                    if !f(day, s, *tod, boundary || (day + i as i64) % 4 == 0) {
+                    if !f(day, s, *tod, boundary || (day.div_euclid(16) + i as i64) % 4 == 0) {
                         return;
                     }
                 }
             }
-        } else if !f(day, (day.rem_euclid(9)) as usize, tods[(day.div_euclid(9).rem_euclid(3)) as usize], boundary || day % 8 == 0) {
+        } else if !f(day, (day.rem_euclid(9)) as usize, tods[(day.div_euclid(9).rem_euclid(3)) as usize], boundary || day.div_euclid(16) % 8 == 0) {
             return;
         }
         day += SHARDS as i64;
@@ -76,7 +76,7 @@ pub fn enum_days(tier: Tier, shard: usize, f: &mut dyn FnMut(i64, usize, i128, b
             for k in 0..n {
                 let day = start + k;
                 let tods = tods_for(day);
-                if !f(day, (day.rem_euclid(9)) as usize, tods[(day.div_euclid(9).rem_euclid(3)) as usize], day % 8 == 0) {
+                if !f(day, (day.rem_euclid(9)) as usize, tods[(day.div_euclid(9).rem_euclid(3)) as usize], day.div_euclid(16) % 8 == 0) {
                     return;
                 }
             }
